@@ -33,11 +33,14 @@ LEVEL_TEXT = ("Lean 4 theorems over R (Mathlib trig, Complex.arg as atan2) and Q
               "angle, precision and sign mode (digits <-> numbers proved, scanner model), latlong fields over R, dms2rad/rad2dms "
               "round trip, bearing range/polar consistency/antisymmetry/symmetry; IsInteger, IsFloat and deg2gon accept exactly "
               "their documented regular languages (all strings; deg2gon with the int/double ranges), decided by a verified "
-              "derivative matcher; two-pass Bowring latitude error: contraction per pass, explicit bound, sub-millimetre on every "
-              "table ellipsoid for -10 km <= h <= 20000 km. Models tied to the C++ by a "
+              "derivative matcher; two-pass Bowring latitude error: contraction per pass, explicit bound; the whole off-surface triple "
+              "on every table ellipsoid for -10 km <= h <= 20000 km in one statement (latitude within 1e-5 m of arc, longitude exact, "
+              "height within 2*(N+h)*|sin dB| < 2e-5 m: explicit Lipschitz estimate of both height formulas); pole and longitude "
+              "hypotheses discharged for every table row and h >= -10 km. Models tied to the C++ by a "
               "translator (ellipsoid table) and byte-exact / 1e-12 correspondence; round-trip and format oracles on the implementation.")
-LEVEL_NOTE = ("Partial: off the surface the HEIGHT error as a function of the (proved) latitude error is searched (< 2e-8 m up to "
-              "20000 km measured), not proved; theorems are in exact arithmetic (IEEE rounding, libm, strtod not modelled). "
+LEVEL_NOTE = ("Theorems are in exact arithmetic (IEEE rounding, libm, strtod not modelled); blh2xyz, Bowring, the height formulas, "
+              "gon2deg/deg2gon and bearing are hand models tied by correspondence only (the translator regenerates the ellipsoid table "
+              "and five patch-presence flags). "
               "Defects found and repaired by fix: commits (the models carry both variants, selected by the translator): "
               "seconds printed as 60.00 (F14), -0.0 printed as -0.00, NaN from xyz2blh at the poles, IsInteger accepting a lone "
               "sign. Known finding C18-F3: dms2rad misreads decimal ddd.mmss literals by 40 arc seconds (binary rounding before "
